@@ -155,7 +155,7 @@ func runC18(p *eng.Prog, r *eng.Report, tier string) {
 
 	// ---- C18.4 join / leave results ---------------------------------------------------
 	for _, k := range []struct{ fn, okArm string }{
-		{"(*Channel).JoinPresence", "selectarm(recv local:joinChan<chan jid.JID>)"},
+		{"(*Channel).JoinPresence", "selectarm(recv local:*<chan jid.JID>)"},
 		{"(*Channel).LeavePresence", "selectarm(recv recv.depart)"},
 	} {
 		f := c.fn("C18.4", "muc", k.fn)
@@ -180,7 +180,7 @@ func runC18(p *eng.Prog, r *eng.Report, tier string) {
 		}
 		c.r.Floor("C18.4", "success returns of "+k.fn, n, 1)
 		// the error arm returns the received error
-		for _, ce := range g.EdgesMatching("selectarm(recv local:errChan<chan error>)") {
+		for _, ce := range g.EdgesMatching("selectarm(recv local:*<chan error>)") {
 			for _, nd := range g.ReachableNodes(g.EdgeTarget(ce.E), nil) {
 				if rs, ok := nd.(*ast.ReturnStmt); ok {
 					pt, _ := g.Where(rs)
